@@ -1,6 +1,7 @@
 import ALV.Common.Json
 import ALV.Model.C13
 import ALV.Spec.C13
+import ALV.Spec.C13Hist
 import ALV.Model.C04
 import ALV.Spec.C04
 namespace ALV.Driver.C13
@@ -60,6 +61,27 @@ def runFilter (s : Coefs Float) (xs : List Float) : List Float :=
   | [] => []
   | a0 :: as => ALV.C04.fspec s.num as a0 0.0 (List.replicate as.length 0.0) [] xs
 
+/-- the sections of a constant design, as model coefficient lists (time-domain runs) -/
+def sectionsOf (j : Json) : Except String (List (Coefs Float)) := do
+  match (← getStr (← field j "entry")) with
+  | "lowpass" =>
+    pure [lowpass (← strategyOf (← getStr (← field j "strategy"))) (← getFloat (← field j "cutoff"))]
+  | "highpass" =>
+    pure [highpass (← strategyOf (← getStr (← field j "strategy"))) (← getFloat (← field j "cutoff"))]
+  | "resonator" =>
+    pure [resonator (← resStrategyOf (← getStr (← field j "strategy"))) (← getFloat (← field j "freq"))
+            (← getFloat (← field j "bandwidth"))]
+  | "gammatone" =>
+    let f ← getFloat (← field j "freq")
+    let bw ← getFloat (← field j "bandwidth")
+    match (← getStr (← field j "strategy")) with
+    | "sampled" =>
+      pure (gammatoneSampled f bw (← getFloat (fieldD j "phase" (Json.int 0))) (← getNat (fieldD j "eta" (Json.int 4))))
+    | "slaney" => pure (gammatoneSlaney f bw)
+    | "klapuri" => pure (gammatoneKlapuri f bw)
+    | st => throw s!"C13: unknown gammatone strategy {st}"
+  | e => throw s!"C13: no time-domain run for entry {e}"
+
 def handleOne (entry : String) (j : Json) : Except String Json := do
   match entry with
   | "lowpass" =>
@@ -106,6 +128,11 @@ def handleOne (entry : String) (j : Json) : Except String Json := do
       let ss := gammatoneKlapuri f bw
       pure <| sections ss (ss.map fun _ => gammatoneSectionContract f bw false)
     | _ => throw s!"C13: unknown gammatone strategy {st}"
+  | "run" =>
+    -- a designed filter (cascade: section after section) run by the C04 difference equation
+    let ss ← sectionsOf (← field j "design")
+    let xs ← getList getFloat (← field j "xs")
+    pure <| Json.mkObj [("run", fls (ss.foldl (fun acc s => runFilter s acc) xs))]
   | "erb" =>
     let st ← getStr (← field j "strategy")
     let f ← getFloat (← field j "freq")
@@ -120,6 +147,77 @@ def handleOne (entry : String) (j : Json) : Except String Json := do
     pure <| Json.mkObj [("model", Json.arr [fl r.1, fl r.2])]
   | _ => throw s!"C13: unknown entry {entry}"
 
+/-! ### histories of designs sharing parameter objects (`ALV/Model/C13Hist.lean`) -/
+
+def flavOf (s : String) : Except String Flav :=
+  match s with
+  | "pool" => pure .pool
+  | "tee" => pure .tee
+  | "ctrl" => pure .ctrl
+  | _ => throw s!"C13: unknown flavour {s}"
+
+def parOf (j : Json) : Except String (Par Float) := do
+  match optField j "src" with
+  | some i => pure (.src (← getNat i))
+  | none => pure (.const (← getFloat (← field j "const")))
+
+def kindOf (j : Json) : Except String Kind := do
+  let k ← getStr (← field j "kind")
+  match k with
+  | "lowpass" => pure (.lowpass (← strategyOf (← getStr (← field j "strategy"))))
+  | "highpass" => pure (.highpass (← strategyOf (← getStr (← field j "strategy"))))
+  | "resonator" => pure (.resonator (← resStrategyOf (← getStr (← field j "strategy"))))
+  | "klapuri" => pure .klapuri
+  | "comb" =>
+    let d ← getNat (← field j "delay")
+    match (← getStr (← field j "strategy")) with
+    | "fb" => pure (.combFb d)
+    | "tau" => pure (.combTau d)
+    | "ff" => pure (.combFf d)
+    | st => throw s!"C13: unknown comb strategy {st}"
+  | _ => throw s!"C13: unknown design kind {k}"
+
+def opOf (j : Json) : Except String (HOp Float) := do
+  match (← getStr (← field j "op")) with
+  | "build" => pure (.build (← getNat (← field j "j")))
+  | "take" => pure (.take (← getNat (← field j "j")))
+  | "set" => pure (.set (← getNat (← field j "i")) (← getFloat (← field j "v")))
+  | o => throw s!"C13: unknown history step {o}"
+
+/-- the contract records of the sections of an instant -/
+def kindContracts (k : Kind) (v1 v2 : Float) : List (Contract Float) :=
+  match k with
+  | .lowpass st => [lowpassSpec st v1]
+  | .highpass st => [highpassSpec st v1]
+  | .resonator st => [resonatorSpec st v1 v2]
+  | .klapuri => (gammatoneKlapuri v1 v2).map fun _ => gammatoneSectionContract v1 v2 false
+  | _ => []
+
+def emitJson (e : Option (Emit Float)) : Json :=
+  match e with
+  | none => Json.null
+  | some e => Json.mkObj [("v1", fl e.v1), ("v2", fl e.v2), ("secs", arr coefsJson e.secs)]
+
+def handleHist (j : Json) : Except String Json := do
+  let srcs ← getList (fun s => do
+    pure (⟨← flavOf (← getStr (← field s "flav")), ← getList getFloat (← field s "vals")⟩ : Src Float))
+    (← field j "srcs")
+  let dsgs ← getList (fun d => do
+    pure (⟨← kindOf d, ← parOf (← field d "p1"), ← parOf (← field d "p2")⟩ : Dsg Float)) (← field j "dsgs")
+  let ops ← getList opOf (← field j "ops")
+  let view ← getNat (fieldD j "view" (Json.int 2))
+  let model := histModel srcs dsgs ops
+  let spec := histSpec srcs dsgs ops
+  let contracts := (spec.zip ops).map fun (e, op) =>
+    match e, op with
+    | some e, .take jd => arr contractJson (kindContracts (dsgs.getD jd emptyDsg).kind e.v1 e.v2)
+    | _, _ => Json.null
+  let past := ops.reverse
+  pure <| Json.mkObj [
+    ("model", arr emitJson model), ("spec", arr emitJson spec), ("contracts", Json.arr contracts),
+    ("final", arr fls (histFinal srcs dsgs ops view)),
+    ("final_spec", arr fls ((List.range srcs.length).map fun i => callerSpec srcs dsgs past i view))]
+
 /-- `multi`: a list of requests answered in order (Stream-valued parameters: one constant design
 per instant) -/
 def handle (entry : String) (j : Json) : Except String Json := do
@@ -130,6 +228,7 @@ def handle (entry : String) (j : Json) : Except String Json := do
       let e ← getStr (← field c "entry")
       handleOne e c
     pure <| Json.mkObj [("results", Json.arr rs)]
+  | "hist" => handleHist j
   | _ => handleOne entry j
 
 end ALV.Driver.C13
